@@ -101,6 +101,25 @@ func propC09(a *Analysis, r *Registry) {
 					n++
 				}
 			}
+			// (the sorting may be delegated to a helper: reached when the helper is called and the
+			// helper reaches its sort call)
+			for _, hfc := range fc.BoundCallees(1)[1:] {
+				var sites []*ssa.Call
+				fc.Ctx.Instrs(func(in ssa.Instruction) {
+					if c, ok := in.(*ssa.Call); ok && c.Call.StaticCallee() == hfc.Fn {
+						sites = append(sites, c)
+					}
+				})
+				if len(sites) != 1 {
+					continue
+				}
+				for _, cn := range []string{"sort.Float64s", "sort.Sort"} {
+					for _, c := range hfc.CallsTo(cn) {
+						reach = S.Or(reach, S.And(fc.ReachCond(sites[0].Block()), hfc.Sub(hfc.ReachCond(c.Block()))))
+						n++
+					}
+				}
+			}
 			if n == 0 {
 				r.Undecided("C-decision", name+"/skips-only-sorted", b.pos(fn), "no call to sort.Sort / sort.Float64s in Sort itself")
 				return
